@@ -15,6 +15,9 @@ type GenOpts struct {
 	// TextMode restricts text strings: 0 = arbitrary bytes, 1 = valid UTF-8 (JSON-representable, control
 	// characters included), 2 = XML-representable (no C0 controls except tab/LF/CR, no U+FFFE/U+FFFF).
 	TextMode int
+	// ExtTags: only tags of the vendor extension range 0x540000..0x54FFFF (opaque content that cannot be
+	// mistaken for a standard structure by an oracle keyed on standard tags).
+	ExtTags bool
 }
 
 func genText(r *rng.R, mode, max int) []byte {
@@ -111,6 +114,9 @@ func Gen(r *rng.R, o GenOpts, depth int) *Item {
 		k = KStruct
 	}
 	it := &Item{Kind: k, Tag: genTag(r)}
+	if o.ExtTags {
+		it.Tag = 0x540000 + 1 + r.Intn(0xFFFE)
+	}
 	switch k {
 	case KStruct:
 		n := r.Intn(o.MaxChildren + 1)
